@@ -202,7 +202,7 @@ def yield_clock_agreement(chk, prog, rule: str):
 
 # --------------------------------------------------------------------------------------------- calendar conversion scope
 
-AGGREGATORS = {"mean", "median", "average", "nanmean", "nanmedian"}
+AGGREGATORS = {"mean", "median", "average", "nanmean", "nanmedian", "max", "min", "amax", "amin", "nanmax", "nanmin", "quantile", "percentile", "nanpercentile", "nanquantile"}
 
 
 def season_aggregate_calendar(chk, prog, rule: str):
